@@ -19,7 +19,7 @@ use std::cell::RefCell;
 use std::collections::BTreeSet;
 use std::rc::Rc;
 
-// @grid c21_grid_make_edge_parameters tier=quick bound="3 edge definitions of the numbers schema (required / defaulted / nullable parameters); specified maps over {min, max, bogus} with values absent / null / Int64 / Uint64 / String"
+// @grid c21_grid_make_edge_parameters tier=quick bound="[+ seeded random accepted documents, VERIF_SEED] 3 edge definitions of the numbers schema (required / defaulted / nullable parameters); specified maps over {min, max, bogus} with values absent / null / Int64 / Uint64 / String"
 // @ob make_edge_parameters is Ok(p) iff no required parameter is missing, every supplied value fits its declared type and no undeclared name is supplied; then keys(p) are exactly the declared names and each value is the supplied one, else the declared default, else null for a nullable parameter
 pub(crate) fn c21_grid_make_edge_parameters() {
     let mut n = 0u64;
@@ -133,13 +133,13 @@ impl<'a> Adapter<'a> for Recorder {
     }
 }
 
-// @grid c21_grid_adapter_call_contract tier=quick bound="every numbers-schema query of the corpus whose arguments are accepted, executed on the repository's numbers adapter"
+// @grid c21_grid_adapter_call_contract tier=quick bound="[+ seeded random accepted documents, VERIF_SEED] every numbers-schema query of the corpus whose arguments are accepted, executed on the repository's numbers adapter"
 // @ob every adapter call names a type defined in the schema, a property (or __typename) / an edge defined on that type, a coercion target that is a subtype of the named type, and edge parameters whose keys are exactly the declared parameters with values of the declared types; every non-null active vertex passed is an instance of the named type
 pub(crate) fn c21_grid_adapter_call_contract() {
     let mut n = 0u64;
     let mut failures = BTreeSet::new();
     let mut total_calls = 0u64;
-    for case in corpus() {
+    for case in crate::verif_corpus::corpus_with_random(200, 21) {
         if case.schema_name != "numbers" { continue; }
         vk::grid_case(format_args!("{}", case.name));
         let Some(iq) = compile(&case) else { continue; };
